@@ -181,7 +181,8 @@ def shrink_violation(run, spec, v, cfgs_by_name, bins_by_name):
 
 def run_machine(run, spec):
     tier = run.tier; rng = run.rng
-    cfgs = spec.cfgs(tier, rng)
+    # configurations depend on (property, tier) only, so that the set-up command can pre-build them; scripts depend on the seed
+    cfgs = spec.cfgs(tier, random.Random(int(hashlib.sha256((spec.pid + tier).encode()).hexdigest()[:8], 16)))
     corpus = corpus_scripts(spec.pid)
     corpus_cfgs = []
     for path, s in corpus:
@@ -208,7 +209,7 @@ def run_machine(run, spec):
     for c in cfgs:
         for k in range(per):
             work.append((c, gen.gen_script(rng, c, spec.profile(c) if callable(spec.profile) else spec.profile), "generated"))
-    run.evaluations = len(work)
+    run.evaluations += len(work)
     def one(w):
         c, s, src = w
         bins = bins_by_name.get(cfgmod.name(c))
